@@ -406,6 +406,173 @@ theorem wReserve_room : ∀ (k r counter : Nat), counter < r → counter + k < w
 
 example : wReserveAction 2 5 0 = 8 := by decide
 
+/-! ## (6) Witness' agenda loop: termination with the repair, non-termination as shipped -/
+
+theorem wStepG_false (n k : Nat) (P : Nat → List Vec) (oracle : List Vec → Vec → Option Vec) (best : Vec → Choice) (st : WState) :
+    wStepG false n k P oracle best st = wStep n k P oracle best st := by
+  unfold wStepG wStep
+  cases st.agenda with
+  | nil => rfl
+  | cons v rest =>
+    simp only
+    cases oracle (st.U.map (choiceSum n k P)) (choiceSum n k P v) <;> simp
+
+theorem wLoopG_false (n k : Nat) (P : Nat → List Vec) (oracle : List Vec → Vec → Option Vec) (best : Vec → Choice) :
+    ∀ (f : Nat) (st : WState), wLoopG false n k P oracle best f st = wLoop n k P oracle best f st := by
+  intro f
+  induction f with
+  | zero => intro st; rfl
+  | succ f ih => intro st; simp [wLoopG, wLoop, wStepG_false, ih]
+
+/-- the sums held in U are pairwise different and all come from a finite pool (the full cross-sum) -/
+def WFin (n k : Nat) (P : Nat → List Vec) (pool : List Vec) (st : WState) : Prop :=
+  (st.U.map (choiceSum n k P)).Nodup ∧ ∀ x ∈ st.U.map (choiceSum n k P), x ∈ pool
+
+theorem wLoopG_done (n k : Nat) (P : Nat → List Vec) (oracle : List Vec → Vec → Option Vec) (best : Vec → Choice) :
+    ∀ (f : Nat) (st : WState), st.agenda = [] → (wLoopG true n k P oracle best f st).agenda = [] := by
+  intro f
+  induction f with
+  | zero => intro st h; exact h
+  | succ f ih =>
+    intro st h
+    simp only [wLoopG]
+    have : wStepG true n k P oracle best st = st := by unfold wStepG; rw [h]
+    rw [this]; exact ih st h
+
+/-- **witness_repaired_terminates** — with the repair, Witness' per-action loop terminates for ANY LP oracle (sound or not) and any
+    `crossSumBestAtBelief` whose vectors come from the finite cross-sum: every iteration either pops the agenda or adds a vector not yet in U. -/
+theorem witness_repaired_terminates (n k : Nat) (P : Nat → List Vec) (pool : List Vec)
+    (oracle : List Vec → Vec → Option Vec) (best : Vec → Choice) (hbest : ∀ w, choiceSum n k P (best w) ∈ pool) :
+    ∀ (st : WState), WFin n k P pool st → ∃ f, (wLoopG true n k P oracle best f st).agenda = [] := by
+  -- outer: strong induction on pool.length - U.length; inner: induction on the agenda length
+  have key : ∀ (a : Nat) (st : WState), WFin n k P pool st → pool.length - st.U.length = a →
+      ∃ f, (wLoopG true n k P oracle best f st).agenda = [] := by
+    intro a
+    induction a using Nat.strong_induction_on with
+    | _ a iha =>
+      have inner : ∀ (L : Nat) (st : WState), WFin n k P pool st → pool.length - st.U.length = a → st.agenda.length = L →
+          ∃ f, (wLoopG true n k P oracle best f st).agenda = [] := by
+        intro L
+        induction L with
+        | zero =>
+          intro st _ _ hL
+          exact ⟨0, by simpa [wLoopG] using List.eq_nil_of_length_eq_zero hL⟩
+        | succ L ihL =>
+          intro st hfin ha hL
+          match hag : st.agenda with
+          | [] => rw [hag] at hL; simp at hL
+          | v :: rest =>
+            rw [hag] at hL
+            simp only [List.length_cons, Nat.add_right_cancel_iff] at hL
+            -- one step
+            have hstep : ∃ st', wStepG true n k P oracle best st = st' ∧
+                ((st'.U = st.U ∧ st'.agenda = rest) ∨
+                 (WFin n k P pool st' ∧ pool.length - st'.U.length < a)) := by
+              unfold wStepG
+              rw [hag]
+              simp only
+              cases ho : oracle (st.U.map (choiceSum n k P)) (choiceSum n k P v) with
+              | none => exact ⟨_, rfl, Or.inl ⟨rfl, rfl⟩⟩
+              | some w =>
+                simp only [Bool.true_and]
+                by_cases hc : (st.U.map (choiceSum n k P)).contains (choiceSum n k P (best w)) = true
+                · rw [if_pos hc]; exact ⟨_, rfl, Or.inl ⟨rfl, rfl⟩⟩
+                · rw [if_neg hc]
+                  refine ⟨_, rfl, Or.inr ?_⟩
+                  have hnot : choiceSum n k P (best w) ∉ st.U.map (choiceSum n k P) := by
+                    intro hm; exact hc (List.contains_iff_mem.mpr hm)
+                  have hnd : ((st.U ++ [best w]).map (choiceSum n k P)).Nodup := by
+                    rw [List.map_append, List.map_singleton]
+                    exact List.nodup_append.mpr ⟨hfin.1, List.nodup_singleton _, by
+                      intro x hx y hy; simp at hy; subst hy; intro e; subst e; exact hnot hx⟩
+                  have hsub : ∀ x ∈ (st.U ++ [best w]).map (choiceSum n k P), x ∈ pool := by
+                    intro x hx
+                    rw [List.map_append, List.mem_append] at hx
+                    rcases hx with hx | hx
+                    · exact hfin.2 x hx
+                    · simp at hx; subst hx; exact hbest w
+                  refine ⟨⟨hnd, hsub⟩, ?_⟩
+                  have hle := List.Nodup.length_le_of_subset hnd (fun x hx => hsub x hx)
+                  simp only [List.length_map, List.length_append, List.length_singleton] at hle ⊢
+                  omega
+            obtain ⟨st', hst', hcase⟩ := hstep
+            rcases hcase with ⟨hU, hA⟩ | ⟨hfin', hlt⟩
+            · have hfin' : WFin n k P pool st' := by unfold WFin; rw [hU]; exact hfin
+              obtain ⟨f, hf⟩ := ihL st' hfin' (by rw [hU]; exact ha) (by rw [hA]; exact hL)
+              exact ⟨f + 1, by simp only [wLoopG]; rw [hst']; exact hf⟩
+            · obtain ⟨f, hf⟩ := iha _ hlt st' hfin' rfl
+              exact ⟨f + 1, by simp only [wLoopG]; rw [hst']; exact hf⟩
+      intro st hfin ha
+      exact inner st.agenda.length st hfin ha rfl
+  intro st hfin
+  exact key _ st hfin rfl
+
+/-- … and it changes nothing when the oracle is sound: a genuine witness point's best vector beats everything in U there, hence is new -/
+theorem wStepG_eq_wStep_of_sound (n k : Nat) (P : Nat → List Vec) (oracle : List Vec → Vec → Option Vec) (best : Vec → Choice)
+    (hsound : ∀ (U : List Choice) (v : Choice) (w : Vec), oracle (U.map (choiceSum n k P)) (choiceSum n k P v) = some w →
+      ∀ u ∈ U, dot n w (choiceSum n k P u) < dot n w (choiceSum n k P (best w)))
+    (st : WState) : wStepG true n k P oracle best st = wStep n k P oracle best st := by
+  unfold wStepG wStep
+  cases hag : st.agenda with
+  | nil => rfl
+  | cons v rest =>
+    simp only
+    cases ho : oracle (st.U.map (choiceSum n k P)) (choiceSum n k P v) with
+    | none => rfl
+    | some w =>
+      simp only [Bool.true_and]
+      have hnot : ¬ ((st.U.map (choiceSum n k P)).contains (choiceSum n k P (best w)) = true) := by
+        intro hc
+        have hm := List.contains_iff_mem.mp hc
+        rw [List.mem_map] at hm
+        obtain ⟨u, hu, e⟩ := hm
+        have := hsound st.U v w ho u hu
+        rw [e] at this
+        exact lt_irrefl _ this
+      rw [if_neg hnot]
+
+example : WFin 2 2 (fun _ => [#[0, 1], #[1, 0]]) (crossTo 2 2 (fun _ => [#[0, 1], #[1, 0]])) (wInit 2) := by
+  constructor <;> simp [wInit]
+
+
+/-- the shipped loop (no guard) with an LP that reports a witness where there is none (noise): one projection per observation, the default
+    entry is examined, "improved" by itself, and examined again — for ever.  (The C++ instance is harness case 8.) -/
+theorem witness_shipped_loops_counterexample :
+    ∃ (P : Nat → List Vec) (oracle : List Vec → Vec → Option Vec) (best : Vec → Choice),
+      ∀ f, (wLoopG false 1 1 P oracle best f (wInit 1)).agenda ≠ [] := by
+  refine ⟨fun _ => [#[1]], fun _ _ => some #[1], fun _ => [0], ?_⟩
+  have hstep : ∀ st : WState, st.agenda = [[0]] → [0] ∈ st.tried →
+      (wStepG false 1 1 (fun _ => [#[1]]) (fun _ _ => some #[1]) (fun _ => [0]) st).agenda = [[0]] ∧
+      [0] ∈ (wStepG false 1 1 (fun _ => [#[1]]) (fun _ _ => some #[1]) (fun _ => [0]) st).tried := by
+    intro st hag htr
+    unfold wStepG
+    rw [hag]
+    simp only [Bool.false_and, Bool.false_eq_true, if_false]
+    have hv : allVars 1 (fun _ => [#[1]]) [0] = [] := by decide
+    rw [hv]
+    simp [addVars, htr]
+  have hloop : ∀ f (st : WState), st.agenda = [[0]] → [0] ∈ st.tried →
+      (wLoopG false 1 1 (fun _ => [#[1]]) (fun _ _ => some #[1]) (fun _ => [0]) f st).agenda = [[0]] := by
+    intro f
+    induction f with
+    | zero => intro st h _; exact h
+    | succ f ih =>
+      intro st h ht
+      simp only [wLoopG]
+      exact ih _ (hstep st h ht).1 (hstep st h ht).2
+  intro f
+  rw [hloop f (wInit 1) (by simp [wInit]) (by simp [wInit])]
+  simp
+
+
+/-- the Witness loop for the code as it is NOW (`witnessSkipsKnownVector` is read from Witness.hpp on every run): once the repair is in the
+    source, the per-action loop terminates for any LP answer -/
+theorem witness_loop_as_extracted (n k : Nat) (P : Nat → List Vec) (pool : List Vec)
+    (oracle : List Vec → Vec → Option Vec) (best : Vec → Choice) (hbest : ∀ w, choiceSum n k P (best w) ∈ pool)
+    (hsrc : AITB.Gen.C02.witnessSkipsKnownVector = true) (st : WState) (hfin : WFin n k P pool st) :
+    ∃ f, (wLoopG AITB.Gen.C02.witnessSkipsKnownVector n k P oracle best f st).agenda = [] := by
+  rw [hsrc]; exact witness_repaired_terminates n k P pool oracle best hbest st hfin
+
 /-! ## (5) the tie: statements the round-3 model hard-codes, as located in the source on this run -/
 
 /-- the ten statements of the outer loop (found, in order, in all three solvers' `operator()`), the nine of `weakBoundDistance`, the
